@@ -4,26 +4,29 @@ import "verif/engine/sym"
 
 func init() {
 	grids["C10"] = &gridDef{
-		explain: "every operation history (Append / Get / GetSince / LastDate / Assets over two asset names) up to the stated length is executed on the real InMemoryRepository and on the real FileSystemRepository code with symbolic snapshot dates (day numbers), symbolic prices and symbolic GetSince bounds; after every operation the result is compared by the solver with a map-of-slices model: order, exact date >= bound filtering, last date, asset listing as a set, errors on unknown / empty, visibility of a returned Append",
+		explain: "every operation history (Append / Get / GetSince / LastDate / Assets over two asset names) up to the stated length is executed on the real InMemoryRepository, the real FileSystemRepository code and the real SQLRepository code with symbolic snapshot dates (day numbers), symbolic prices and symbolic GetSince bounds; after every operation the result is compared by the solver with a map-of-slices model: order, exact date >= bound filtering, last date, asset listing as a set, errors on unknown / empty, visibility of a returned Append",
 		bounds: func(t string) string {
 			if t == "thorough" {
 				return "all histories of <= 4 operations (10 operation x asset choices per step), with and without a pre-existing asset; dates in [2000-01-01, +9000 days]"
 			}
 			return "all histories of <= 3 operations (10 choices per step), with and without a pre-existing asset"
 		},
-		outside:     "the SQL repository (database/sql cannot be executed symbolically and no driver is available offline: its Append is visibly asynchronous — see DESIGN.md); for the file-system repository the CSV layer (helper.ReadFromCsvFile, AppendOrWriteToCsvFile, os.ReadDir) is replaced by a file-table stub in the symbolic run (the native replay uses a real temporary directory); asset names that are not valid file names; longer histories",
-		assumptions: append([]string{"day-number model of time.Time (Equal/After/Before/AddDate(0,0,d)): whole-day UTC dates as the property's domain states", "stub contract of the CSV layer: a file holds the rows appended to it, in order; reading a missing file is an error", realModeNote}, commonAssumptions...),
+		outside:     "real SQL drivers (the SQL repository runs over a table model: database/sql entry points stubbed symbolically, a minimal in-process driver in native replays; statement semantics are the model's: rows per asset in insertion order); for the file-system repository the CSV layer (helper.ReadFromCsvFile, AppendOrWriteToCsvFile, os.ReadDir) is replaced by a file-table stub in the symbolic run (the native replay uses a real temporary directory); asset names that are not valid file names; longer histories",
+		assumptions: append([]string{"day-number model of time.Time (Equal/After/Before/AddDate(0,0,d)): whole-day UTC dates as the property's domain states", "stub contract of the CSV layer: a file holds the rows appended to it, in order; reading a missing file is an error", "table contract of the SQL layer (harness/h/c10_sql.go): APPEND inserts a row, GETSINCE returns the asset's rows dated on/after the bound in insertion order, LASTDATE the date of its last inserted row or no row, ASSETS the distinct names", realModeNote}, commonAssumptions...),
 		cases: func(tier string, pr *prober) []sym.CaseSpec {
 			maxSteps := 3
 			if tier == "thorough" {
 				maxSteps = 4
 			}
 			var out []sym.CaseSpec
-			for kind := 0; kind <= 1; kind++ {
+			for kind := 0; kind <= 2; kind++ {
 				for seed := 0; seed <= 2; seed++ {
 					pow := 1
 					for steps := 1; steps <= maxSteps; steps++ {
 						pow *= 10
+						if seed == 2 && steps >= maxSteps {
+							continue // the three-snapshot seed only with shorter histories
+						}
 						for code := 0; code < pow; code++ {
 							c := cs("H_C10", kind, steps, code, seed)
 							c.Weight = steps
